@@ -321,13 +321,16 @@ def FromTo.getTag (f : FromTo) : Option Bytes := getParam f.params (str "tag")
 structure CSeq where
   seq : Int
   method : Bytes
+  /-- the header value as received; re-encoded literally (cseq.go `text`) -/
+  text : Bytes := []
   deriving Repr, DecidableEq
 
 def parseCSeq (s : Bytes) : Option CSeq :=
   match fields s with
-  | [n, m] => (atoi n).map fun i => { seq := i, method := m }
+  | [n, m] => (atoi n).map fun i => { seq := i, method := m, text := s }
   | _ => none
 
-def CSeq.encode (c : CSeq) : Bytes := itoa c.seq ++ [32] ++ c.method
+def CSeq.encode (c : CSeq) : Bytes :=
+  if c.text ≠ [] then c.text else itoa c.seq ++ [32] ++ c.method
 
 end Sip
